@@ -191,3 +191,13 @@ unsafe impl CoreImpl<FFT64Avx> for FFT64Avx {
 unsafe impl CoreImpl<NTT120Avx> for NTT120Avx {
     poulpy_core::impl_core_default_methods!(NTT120Avx);
 }
+
+// Verification hook (dead without cfg(kani)): the `enable-avx` feature cannot be enabled under cargo-kani (RUSTFLAGS are
+// ignored), so the single-polynomial AVX kernels are mounted directly for the equivalence harnesses of /verif/kx/cpu_avx.
+#[cfg(all(kani, not(feature = "enable-avx")))]
+#[path = "znx_avx/mod.rs"]
+mod znx_avx;
+#[cfg(kani)]
+mod verif_kani {
+    include!(concat!(env!("POULPY_VERIF_KX"), "/cpu_avx/lib.rs"));
+}
